@@ -259,8 +259,21 @@ def gen_divmod(rnd, n):
             v = k * dfirst                       # (nearly) an exact multiple of the divisor
             ph = {"i": [hx(round(v))] * len(ph["i"]), "f": [hx(v - round(v))] * len(ph["i"]), "im": False,
                   "shape": ph["shape"]}
-        out.append({"ev": "arith", "op": op, "ord": "po", "ph": ph, "ot": o})
+        out.append(dict({"ev": "arith", "op": op, "ord": "po", "ph": ph, "ot": o}, **divform(rnd, op)))
     return out
+
+
+def divform(rnd, op):
+    """out of place / p %= d / out= the dividend itself / out= a separate stale Phase (either kind) /
+    out= the Phase divisor; the quotient of divmod and floor_divide goes to an array or a Quantity"""
+    r = rnd.random()
+    if op == "floordiv":
+        f = "op" if r < 0.75 else "out"
+    elif op == "mod":
+        f = "op" if r < 0.4 else "iop" if r < 0.6 else "outself" if r < 0.75 else "out" if r < 0.94 else "outdiv"
+    else:
+        f = "op" if r < 0.5 else "outself" if r < 0.72 else "out" if r < 0.94 else "outdiv"
+    return {"form": f, "tim": rnd.random() < 0.5, "qq": rnd.random() < 0.5}
 
 
 def gen_trig(rnd, n):
@@ -303,6 +316,17 @@ def fixed_cases():
                     continue
                 out.append({"ev": "arith", "op": op, "ord": ord_, "ph": ph,
                             "ot": dict(ot("dimscaled", [v], im=False), unit=unit)})
+    seven = {"i": [hx(7.0)], "f": [hx(0.2)], "im": False, "shape": None}
+    sevens = {"i": [hx(7.0), hx(9.0), hx(P52 - 3)], "f": [hx(0.2), hx(-0.1), hx(0.25)], "im": False, "shape": [3]}
+    for ph in (seven, sevens):
+        for d in (ot("cycleq", [2.0]), ot("angle", [2.0]), ot("cycleq", [0.75]),
+                  {"kind": "phase", "i": [hx(2.0)], "f": [hx(0.25)], "im": False, "shape": None}):
+            for op, forms in (("mod", ("iop", "outself", "out", "outdiv")), ("divmod", ("outself", "out", "outdiv")),
+                              ("floordiv", ("out",))):
+                for f in forms:
+                    for tim in ((False, True) if f == "out" else (False,)):
+                        out.append({"ev": "arith", "op": op, "ord": "po", "ph": ph, "ot": d, "form": f, "tim": tim,
+                                    "qq": tim})
     for op in ("floordiv", "mod", "divmod"):
         out.append({"ev": "arith", "op": op, "ord": "po", "ph": one, "ot": as_phase_ot(one)})
         out.append({"ev": "arith", "op": op, "ord": "po", "ph": one, "ot": ot("cycleq", [0.5])})
@@ -341,20 +365,29 @@ def recipes(rnd, scale):
     return rc
 
 
+def _tlc(module, cfg, **kw):
+    """tlc.run; a run that ends without any verdict (JVM killed from outside on a
+    shared machine) is repeated once before it is reported as a machinery error"""
+    r = tlc.run(module, cfg, **kw)
+    if not r.ok and r.violation is None:
+        r = tlc.run(module, cfg, **kw)
+    return r
+
+
 def model_checking(thorough):
     """MC runs of the specification (run beside the trace validation); returns
     [(name, result, must_hold, expected violation)]"""
     out = []
     w = 8 if thorough else 6
     out.append(("MC_Phase_" + ("full" if thorough else "quick"),
-                tlc.run("MC_Phase", "MC_Phase_full.cfg" if thorough else "MC_Phase_quick.cfg", workers=w, timeout=3000),
+                _tlc("MC_Phase", "MC_Phase_full.cfg" if thorough else "MC_Phase_quick.cfg", workers=w, timeout=3000),
                 True, None))
     # MC-2: day_frac over the toy floating point, every pair of toy floats
     out.append(("MC_DayFrac_" + ("full" if thorough else "quick"),
-                tlc.run("MC_DayFrac", "MC_DayFrac_full.cfg" if thorough else "MC_DayFrac_quick.cfg", workers=w,
+                _tlc("MC_DayFrac", "MC_DayFrac_full.cfg" if thorough else "MC_DayFrac_quick.cfg", workers=w,
                         timeout=3000), True, None))
     for mod, cfg, inv in NEGS:
-        out.append(("neg:" + cfg, tlc.run(mod, cfg, workers=2, timeout=600), False, inv))
+        out.append(("neg:" + cfg, _tlc(mod, cfg, workers=2, timeout=600), False, inv))
     return out
 
 
